@@ -82,6 +82,7 @@ func (c *Ctx) builtinFlagSweep(ss []string) {
 	var reqs []string
 	type span struct{ lo, n int }
 	var spans []span
+	spTotal := map[int]int{}
 	for _, set := range sets {
 		total := 0
 		var hx []string
@@ -97,8 +98,11 @@ func (c *Ctx) builtinFlagSweep(ss []string) {
 			for k := range set {
 				flags += strconv.Itoa((f >> k) & 1)
 			}
-			spans = append(spans, span{len(reqs), 4})
-			for _, l := range []int{-1, 0, total, total + 7} {
+			spans = append(spans, span{len(reqs), 7})
+			spTotal[len(reqs)] = total
+			// the last three limits are smaller than the token count of the longest source: whatever its
+			// BuiltIn flag says, no document may come back
+			for _, l := range []int{-1, 0, total, total + 7, max(total-2, 1), max(total/2, 1), 1} {
 				reqs = append(reqs, "psb "+strconv.Itoa(l)+" "+flags+" "+strings.Join(hx, " "))
 			}
 		}
@@ -107,7 +111,17 @@ func (c *Ctx) builtinFlagSweep(ss []string) {
 	for _, sp := range spans {
 		base := obs[sp.lo]
 		c.Ev.Case("psb"+clip(base, 120), strings.Contains(base, "(SDOC"))
-		for k := 1; k < sp.n; k++ {
+		for k := 4; k < sp.n; k++ {
+			if o := obs[sp.lo+k]; strings.HasPrefix(o, "(SDOC") && strings.HasPrefix(base, "(SDOC") {
+				var lim int
+				fmt.Sscan(strings.Fields(reqs[sp.lo+k])[1], &lim)
+				if lim+2 <= spTotal[sp.lo] {
+					c.Report("spec", "document-beyond-the-limit-accepted", "sources with BuiltIn flags: "+clip(reqs[sp.lo+k], 200)+" returns a document although a source has "+strconv.Itoa(spTotal[sp.lo])+" tokens",
+						map[string]any{"op": "psb", "request": reqs[sp.lo+k], "limited": o, "tokens_of_longest_source": spTotal[sp.lo]})
+				}
+			}
+		}
+		for k := 1; k < 4; k++ {
 			if o := obs[sp.lo+k]; o != base && o != "SKIPPED" && base != "SKIPPED" && !(k == 2 && strings.HasPrefix(o, "E,0,0,")) {
 				c.Report("spec", "limit-rejects-or-changes-document-within-limit", "sources with BuiltIn flags: "+clip(reqs[sp.lo+k], 200)+" gives "+clip(o, 300)+" but the unlimited parse gives "+clip(base, 300),
 					map[string]any{"op": "psb", "request": reqs[sp.lo+k], "unlimited_request": reqs[sp.lo], "limited": o, "unlimited": base})
